@@ -20,6 +20,9 @@ func FuzzRegisterMatch(f *testing.F) {
 		f.Add(uint16(i*31), s, "/{all}", "GET,POST", "HEAD", "   ", "/a/b/c/")
 	}
 	f.Fuzz(func(t *testing.T, bits uint16, p1, p2, methods, m, q1, q2 string) {
+		if len(p1)+len(p2) > 300 || len(q1)+len(q2) > 300 || len(methods)+len(m) > 100 {
+			return // size bound (not a time limit): longer inputs only make the regexp engine slow
+		}
 		var opts []func(*rux.Router)
 		o := model.Options{}
 		if bits&1 != 0 {
